@@ -269,6 +269,27 @@ def prop_ledger(sh, case):
             if a in got and got[a] != got[b]:
                 fails.append((f'homomorphism:{a}', f'{sel!r}: {a}={got[a]!r} but {b}={got[b]!r}'))
 
+    # ---- row level: functions of the position of each selected posting ---------------------------------
+    rr = query(conn, select_ir([(P, 'p'), (fn('units', P), 'u'), (fn('cost', P), 'c'), (fn('value', P), 'v'),
+                                (fn('convert', P, usd), 'cv'), (['isnull', fn('units', P)], 'un'), (fn('neg', P), 'ng'),
+                                (fn('abs', P), 'ab'), (fn('str', P), 's'), (fn('possign', P, ['col', 'account']), 'ps')], sel))
+    if rr[0] != 'ok':
+        fails.append((exc_sig(rr[1], 'rowlevel:raises'), f'{sel!r}: {rr[1]!r}'))
+    elif len(rr[2]) != len(rows):
+        fails.append(('rowlevel:row-count', f'{len(rr[2])} vs {len(rows)}'))
+    else:
+        from beancount.core.account_types import get_account_sign
+        from beancount.parser import options as boptions
+        atypes = boptions.get_account_types(options)
+        for (e, p), row in zip(rows, rr[2]):
+            pos = pos_of(p)
+            want = (pos, convert.get_units(pos), convert.get_cost(pos), convert.get_value(pos, price_map),
+                    convert.convert_position(pos, 'USD', price_map), False, -pos, abs(pos), str(pos),
+                    pos if get_account_sign(p.account, atypes) >= 0 else -pos)
+            if any(x is None for x in row) or tuple(row) != want or repr(tuple(row)) != repr(want):
+                fails.append(('rowlevel:position-functions', f'{sel!r}: posting {p.account} {pos}: got {row!r}, want {want!r}'))
+                break
+
     # ---- partitions ----------------------------------------------------------------------------------
     g = sel['group']
     gtargets = [(group_ir(g), 'g'), (fn('sum', P), 's'), (fn('sum', ['col', 'weight']), 'w'), (fn('count', ['star']), 'n'),
